@@ -15,7 +15,7 @@ Big literals: never `congr`/`rw` under a goal containing `18446744073709551616` 
 use `simp only` with prepared equations and helper lemmas over a generalised power `p = 2^h`.
 -/
 namespace TF.Mmr
-open TF TF.Gen
+open TF TF.Gen TF.Spec.Mmr
 
 theorem popCount_zero : popCount 0 = 0 := by unfold popCount; rfl
 theorem popCount_succ (n : Nat) : popCount (n+1) = (n+1) % 2 + popCount ((n+1)/2) := by
@@ -329,5 +329,81 @@ theorem right_sibling_spec (n h : Nat) (hh : h < 63) (hs : n + 2^(h+1) < 2^64 + 
   simp only [e0, e1, e0', Bool.and_eq_true, decide_eq_true_eq]
   generalize 2^(h+1) = p at *
   omega
+
+/-! ### the walk over the trees (`leafPos`) -/
+
+theorem div_pow_eq_of_le {i n a K : Nat} (h : i / 2^a = n / 2^a) (hK : a ≤ K) : i / 2^K = n / 2^K := by
+  obtain ⟨d, rfl⟩ := Nat.exists_eq_add_of_le hK
+  rw [Nat.pow_add, ← Nat.div_div_eq_div_mul, ← Nat.div_div_eq_div_mul, h]
+
+/-- the walk over the trees finds leaf `i` in the tree of the highest bit `h` in which `i` and `n` differ -/
+theorem leafPos_walk (n i h : Nat) (fa : i / 2^(h+1) = n / 2^(h+1)) (fb : n / 2^h % 2 = 1) (fc : i / 2^h % 2 = 0) :
+    ∀ K, h < K → leafPos K n i (n / 2^K * 2^K) (popCount (n / 2^K))
+      = some (h, i % 2^h, popCount (n / 2^(h+1))) := by
+  intro K
+  induction K with
+  | zero => intro hK; omega
+  | succ K ih =>
+    intro hK
+    have hdiv : n / 2^(K+1) = n / 2^K / 2 := by rw [Nat.pow_succ, Nat.div_div_eq_div_mul]
+    have hB := Nat.div_add_mod (n / 2^K) 2
+    have hpc := popCount_eq (n / 2^K)
+    rw [← hdiv] at hpc
+    have hbefore : n / 2^(K+1) * 2^(K+1) = (2 * (n / 2^(K+1))) * 2^K := by rw [Nat.pow_succ]; ring
+    have hP := Nat.two_pow_pos K
+    unfold leafPos
+    by_cases hKh : K = h
+    · subst hKh
+      rw [if_pos fb]
+      have hi := Nat.div_add_mod' i (2^(K+1))
+      rw [fa] at hi
+      have hbit := bit_of_mod i (2^K) hP
+      rw [fc] at hbit
+      have hr : i % (2^K * 2) < 2^K := by
+        by_cases hc : 2^K ≤ i % (2^K * 2)
+        · rw [if_pos hc] at hbit; omega
+        · omega
+      have hpow : 2^(K+1) = 2^K * 2 := Nat.pow_succ 2 K
+      rw [hpow] at hi
+      have hlt : i < n / 2^(K+1) * 2^(K+1) + 2^K := by rw [hpow]; omega
+      rw [if_pos hlt]
+      have hmod : i % 2^K = i % (2^K * 2) := by
+        have := Nat.mod_mod_of_dvd i (Dvd.intro 2 rfl : 2^K ∣ 2^K * 2)
+        rw [← this]; exact Nat.mod_eq_of_lt hr
+      have hsub : i - n / 2^(K+1) * 2^(K+1) = i % 2^K := by rw [hpow, hmod]; omega
+      rw [hsub]
+    · have hlt : h < K := by omega
+      have ih' := ih hlt
+      have hiK : i / 2^K = n / 2^K := div_pow_eq_of_le fa (by omega)
+      have hge : n / 2^K * 2^K ≤ i := by rw [← hiK]; exact Nat.div_mul_le_self i (2^K)
+      by_cases hbit : n / 2^K % 2 = 1
+      · rw [if_pos hbit]
+        have hB' : n / 2^K * 2^K = n / 2^(K+1) * 2^(K+1) + 2^K := by
+          rw [hbefore, hdiv]
+          have : n / 2^K = 2 * (n / 2^K / 2) + 1 := by omega
+          calc n / 2^K * 2^K = (2 * (n / 2^K / 2) + 1) * 2^K := by rw [← this]
+            _ = 2 * (n / 2^K / 2) * 2^K + 2^K := by ring
+        have hnlt : ¬ i < n / 2^(K+1) * 2^(K+1) + 2^K := by rw [← hB']; omega
+        rw [if_neg hnlt, ← hB']
+        have : popCount (n / 2^(K+1)) + 1 = popCount (n / 2^K) := by omega
+        rw [this]; exact ih'
+      · rw [if_neg hbit]
+        have hB' : n / 2^K * 2^K = n / 2^(K+1) * 2^(K+1) := by
+          rw [hbefore, hdiv]
+          have : n / 2^K = 2 * (n / 2^K / 2) := by omega
+          rw [← this]
+        have hpc' : popCount (n / 2^(K+1)) = popCount (n / 2^K) := by omega
+        rw [← hB', hpc']; exact ih'
+
+/-- closed form of the walk: for `i < n < 2^K` the leaf is found in the tree of bit `h = log2 (i xor n)` -/
+theorem leafPos_closed (K n i : Nat) (hin : i < n) (hnK : n < 2^K) :
+    leafPos K n i 0 0 = some ((i ^^^ n).log2, i % 2^(i ^^^ n).log2, popCount (n / 2^((i ^^^ n).log2 + 1))) := by
+  obtain ⟨fa, fb, fc⟩ := xor_log2_facts i n hin
+  have hd : i ^^^ n ≠ 0 := fun e => by have := xor_eq_zero_imp e; omega
+  have hdK : i ^^^ n < 2^K := Nat.xor_lt_two_pow (by omega) hnK
+  have hhK : (i ^^^ n).log2 < K := (Nat.log2_lt hd).mpr hdK
+  have := leafPos_walk n i _ fa fb fc K hhK
+  rw [Nat.div_eq_of_lt hnK, popCount_zero, Nat.zero_mul] at this
+  exact this
 
 end TF.Mmr
